@@ -147,6 +147,53 @@ func (m *gen) fieldTargeted() {
 	}
 }
 
+// trailerCombos: the trailing alh of a record zeroed / replaced by another record's, alone and together
+// with one flipped bit in each other field of the record (a check that trusts or skips a blank trailer).
+func (m *gen) trailerCombos(r *rand.Rand) {
+	alh := map[uint64]field{}
+	for _, f := range m.g.Fields {
+		if f.Class == "rec.alh" {
+			alh[f.Tx] = f
+		}
+	}
+	for _, f := range m.g.Fields {
+		a, ok := alh[f.Tx]
+		if !ok || f.Class[:3] == "val" || f.Class == "emb.prefix" {
+			continue
+		}
+		for variant := 0; variant < 2; variant++ {
+			set := map[int]byte{}
+			what := "zeroed"
+			if variant == 1 {
+				// the trailer of the next tx (or the first)
+				o, ok := alh[f.Tx+1]
+				if !ok {
+					o = alh[1]
+				}
+				if o.Tx == f.Tx {
+					continue
+				}
+				for j := 0; j < 32; j++ {
+					set[a.Lo+j] = m.cur(o.Lo + j)
+				}
+				what = fmt.Sprintf("replaced by the one of tx %d", o.Tx)
+			} else {
+				for j := a.Lo; j < a.Hi; j++ {
+					set[j] = 0
+				}
+			}
+			if f.Class == "rec.alh" {
+				m.add("field", "rec.alh", []uint64{f.Tx}, fmt.Sprintf("tx %d trailing alh %s", f.Tx, what), set)
+				continue
+			}
+			i := f.Lo + r.IntN(f.Hi-f.Lo)
+			bit := r.IntN(8)
+			set[i] = m.cur(i) ^ 1<<bit
+			m.add("field", f.Class+"+rec.alh", []uint64{f.Tx}, fmt.Sprintf("%s byte %d bit %d flipped and the tx's trailing alh %s", fdesc(f), i-f.Lo, bit, what), set)
+		}
+	}
+}
+
 // span is a run of located bytes that are logically consecutive (one record, one entry, one value extent).
 type span struct {
 	Tx     uint64
